@@ -74,3 +74,8 @@ Theorem C08_tet_affine_right_hand_side_is_minus_A_u : forall v ts a b0 (fl : lis
   = - bil phi (fem_tet_A Rops v ts) (fun i => dotR (unit_dir a) (getv Rops v i)).
 Proof. exact tet_geodesic_rhs_of_affine. Qed.
 Print Assumptions C08_tet_affine_right_hand_side_is_minus_A_u.
+
+Example C08_tet_affine_hypotheses_are_satisfiable :
+  (1, 0, 0) <> ((0, 0, 0) : V3) /\ Forall (tet_guard_off ex_v) ex_ts /\ tet_nondeg ex_v ex_ts /\
+  Forall (affine_on_tet ex_v (1, 0, 0) 0 (vfun Rops [0; 1; 0; 0])) ex_ts.
+Proof. exact tet_affine_hypotheses_satisfiable. Qed.
